@@ -66,6 +66,12 @@ func verifRequest(method, path string, hdr http.Header, xmlBody interface{}, xml
 		r.Body = ioutil.NopCloser(bytes.NewReader(nil))
 	case rawBody != "":
 		r.Body = ioutil.NopCloser(bytes.NewReader([]byte(rawBody)))
+	case xmlBroken && internal.VerifRequestBodyRepairable && xmlBody != nil:
+		b, err := xml.Marshal(xmlBody)
+		if err != nil {
+			b = []byte("<marshal-error")
+		}
+		r.Body = ioutil.NopCloser(bytes.NewReader(internal.VerifUnquoteFirstAttr(b)))
 	case xmlBroken || xmlBody == nil:
 		r.Body = ioutil.NopCloser(bytes.NewReader([]byte("<broken")))
 	default:
@@ -104,6 +110,16 @@ func symHeaderValue(hdr http.Header, name string, literals []string) (string, bo
 	vrt.Assume(v != "")
 	hdr[name] = []string{v}
 	return v, true
+}
+
+// symBroken: the body is not XML at all (nil), or it is not well-formed in a
+// way a decoder that is not strict repairs into the given document.
+func symBroken(repaired interface{}) interface{} {
+	if vrt.Choose("broken-kind", 2) == 1 {
+		internal.VerifRequestBodyRepairable = true
+		return repaired
+	}
+	return nil
 }
 
 // verifDecoderRefuses: an attribute text the real enumeration decoder
@@ -237,8 +253,10 @@ func VerifH_C13_Handler() {
 		}
 	}
 	level := vrt.Choose("level", len(verifLevelPaths))
-	if method == "REPORT" {
-		// the REPORT body interpretations do not depend on the level: two levels only
+	deep := vrt.Param("deep", 0) == 1
+	if method == "REPORT" && !deep {
+		// the REPORT body interpretations do not depend on the level: two
+		// levels only (all six with parameter deep)
 		vrt.Assume(level == 3 || level == 4)
 	}
 	path := verifLevelPaths[level]
@@ -261,6 +279,7 @@ func VerifH_C13_Handler() {
 			hdr.Set("Content-Type", "text/xml")
 			xmlBroken = true
 			malformed = true
+			xmlBody = symBroken(&internal.PropFind{AllProp: &struct{}{}})
 		case 2:
 			switch vrt.Choose("propfind-content-type", 3) {
 			case 0:
@@ -311,7 +330,7 @@ func VerifH_C13_Handler() {
 			hdr.Set("Content-Type", "text/vcard")
 			malformed = true
 		}
-		if hdr.Get("Content-Type") != "text/xml" {
+		if hdr.Get("Content-Type") != "text/xml" && !deep {
 			// the other announcements carry one plain well-formed query
 			xmlBody = &reportReq{Query: &addressbookQuery{AllProp: &struct{}{}}}
 		} else if vrt.Choose("report-broken", 2) == 1 {
@@ -365,6 +384,7 @@ func VerifH_C13_Handler() {
 			if level == 3 {
 				malformed = true
 			}
+			xmlBody = symBroken(&mkcolReq{ResourceType: *internal.NewResourceType(internal.CollectionName, addressBookName), DisplayName: "x"})
 		case 2:
 			hdr.Set("Content-Type", "text/xml")
 			m := &mkcolReq{DisplayName: vrt.Str("displayname")}
